@@ -143,7 +143,7 @@ Proof.
   change (mar rt E (S (S n)) t x) with
     (match t with
      | TLeaf s | TRefLeaf s => leaf_m rt s x
-     | TNone => Ok x
+     | TNone => if is_none_val rt x then Ok x else Raise EValue
      | TSeq k a => bind (itervalues rt x) (fun vs => bind (mapM (mar rt E (S n) a) vs) (fun rs => Ok (PSeq KList rs)))
      | TMap k kt vt =>
          bind (iteritems rt E x) (fun kvs =>
@@ -592,7 +592,7 @@ Proof.
     + (* leaf *) apply ok3_split in Hok. destruct Hok as [Hv _]. cbn [valid] in Hv. cbn [mar] in Hm. cbn [unm].
       eapply leaf_round; eauto.
     + (* None *) apply ok3_split in Hok. destruct Hok as [Hv _]. cbn [valid] in Hv. cbn [mar] in Hm. cbn [unm].
-      inversion Hm; subst w. apply (none_round _ _ L); exact Hv.
+      rewrite Hv in Hm. inversion Hm; subst w. apply (none_round _ _ L); exact Hv.
     + (* subscripted iterable *)
       apply ok3_split in Hok. destruct Hok as [Hv [Hg Hu]].
       cbn [valid] in Hv; cbn [c01_guard] in Hg; cbn [union_unamb] in Hu.
@@ -753,3 +753,354 @@ Proof.
   eexists; split; [vm_compute; reflexivity |].
   intros f Hf. eapply (roundtrip_fuel toy_rt toy_lv toy_env toy_laws 8 8); try (vm_compute; reflexivity); auto.
 Qed.
+
+(* ------------------------------------------------------------------ structural equality decides = *)
+Section PvInd.
+Variable P : pv -> Prop.
+Hypothesis Hatom : forall a, P (PAtom a).
+Hypothesis Hkey : forall f, P (PKey f).
+Hypothesis Hseq : forall k l, Forall P l -> P (PSeq k l).
+Hypothesis Hdict : forall k l, Forall (fun kv => P (fst kv) /\ P (snd kv)) l -> P (PDict k l).
+Hypothesis Hobj : forall c l, Forall (fun fv => P (snd fv)) l -> P (PObj c l).
+Hypothesis Hnamed : forall c l, Forall P l -> P (PNamed c l).
+Fixpoint pv_ind' (v : pv) : P v :=
+  match v with
+  | PAtom a => Hatom a
+  | PKey f => Hkey f
+  | PSeq k l => Hseq k l ((fix go (l : list pv) : Forall P l :=
+        match l with [] => Forall_nil _ | x :: r => Forall_cons _ (pv_ind' x) (go r) end) l)
+  | PDict k l => Hdict k l ((fix go (l : list (pv * pv)) : Forall (fun kv => P (fst kv) /\ P (snd kv)) l :=
+        match l with [] => Forall_nil _ | x :: r => Forall_cons _ (conj (pv_ind' (fst x)) (pv_ind' (snd x))) (go r) end) l)
+  | PObj c l => Hobj c l ((fix go (l : list (nat * pv)) : Forall (fun fv => P (snd fv)) l :=
+        match l with [] => Forall_nil _ | x :: r => Forall_cons _ (pv_ind' (snd x)) (go r) end) l)
+  | PNamed c l => Hnamed c l ((fix go (l : list pv) : Forall P l :=
+        match l with [] => Forall_nil _ | x :: r => Forall_cons _ (pv_ind' x) (go r) end) l)
+  end.
+End PvInd.
+
+Lemma pv_eqb_eq : forall a b, pv_eqb a b = true -> a = b.
+Proof.
+  induction a as [a | f | k l IH | k l IH | c l IH | c l IH] using pv_ind';
+    intros b H; destruct b as [a' | f' | k' l' | k' l' | c' l' | c' l']; cbn in H; try discriminate.
+  - apply Nat.eqb_eq in H; congruence.
+  - apply Nat.eqb_eq in H; congruence.
+  - apply andb_prop in H; destruct H as [Hk H]. apply seqkind_eqb_eq in Hk; subst k'. f_equal.
+    revert l' H; induction IH as [| x l Hx _ IHl]; intros [| y l'] H; try discriminate; auto.
+    apply andb_prop in H; destruct H as [H1 H2]. f_equal; auto.
+  - apply andb_prop in H; destruct H as [Hk H]. apply dictkind_eqb_eq in Hk; subst k'. f_equal.
+    revert l' H; induction IH as [| [x1 x2] l [Hx1 Hx2] _ IHl]; intros [| [y1 y2] l'] H; try discriminate; auto.
+    apply andb_prop in H; destruct H as [H1 H2]. apply andb_prop in H1; destruct H1 as [H1 H1'].
+    cbn in Hx1, Hx2. f_equal; [f_equal; auto | auto].
+  - apply andb_prop in H; destruct H as [Hk H]. apply Nat.eqb_eq in Hk; subst c'. f_equal.
+    revert l' H; induction IH as [| [f x] l Hx _ IHl]; intros [| [g y] l'] H; try discriminate; auto.
+    apply andb_prop in H; destruct H as [H1 H2]. apply andb_prop in H1; destruct H1 as [H1 H1'].
+    apply Nat.eqb_eq in H1. cbn in Hx. f_equal; [f_equal; auto | auto].
+  - apply andb_prop in H; destruct H as [Hk H]. apply Nat.eqb_eq in Hk; subst c'. f_equal.
+    revert l' H; induction IH as [| x l Hx _ IHl]; intros [| y l'] H; try discriminate; auto.
+    apply andb_prop in H; destruct H as [H1 H2]. f_equal; auto.
+Qed.
+
+(* ------------------------------------------------------------------ the weak (fixpoint) form *)
+Lemma mapM_fix {A B} (f : A -> res B) (g : B -> res A) :
+  forall l ws, (forall x w, In x l -> f x = Ok w -> exists x', g w = Ok x' /\ f x' = Ok w) ->
+  mapM f l = Ok ws -> exists l', mapM g ws = Ok l' /\ mapM f l' = Ok ws.
+Proof.
+  induction l as [| x r IH]; cbn; intros ws H Hm.
+  - inversion Hm; exists []; split; reflexivity.
+  - destruct (f x) as [y | | |] eqn:Hx; cbn in Hm; try discriminate.
+    destruct (mapM f r) as [t | | |] eqn:Hr; cbn in Hm; try discriminate.
+    inversion Hm; subst ws.
+    destruct (H x y (or_introl eq_refl) Hx) as [x' [Hg Hf]].
+    destruct (IH t (fun x0 w0 Hin => H x0 w0 (or_intror Hin)) eq_refl) as [r' [Hgr Hfr]].
+    exists (x' :: r'); cbn. rewrite Hg; cbn. rewrite Hgr; cbn. rewrite Hf; cbn. rewrite Hfr; cbn. split; reflexivity.
+Qed.
+
+Lemma mapM_zip_fix (f g : ty -> pv -> res pv) (P : ty -> pv -> bool) :
+  (forall t x w, P t x = true -> f t x = Ok w -> exists x', g t w = Ok x' /\ f t x' = Ok w) ->
+  forall ts l ws, forallb2 P ts l = true ->
+  mapM (fun tv => f (fst tv) (snd tv)) (zip_trunc ts l) = Ok ws ->
+  exists l', mapM (fun tv => g (fst tv) (snd tv)) (zip_trunc ts ws) = Ok l' /\
+             mapM (fun tv => f (fst tv) (snd tv)) (zip_trunc ts l') = Ok ws.
+Proof.
+  intros H; induction ts as [| t r IH]; destruct l as [| x l]; cbn; intros ws HP Hm; try discriminate.
+  - inversion Hm; exists []; split; reflexivity.
+  - apply andb_prop in HP; destruct HP as [Hp HP].
+    destruct (f t x) as [y | | |] eqn:Hx; cbn in Hm; try discriminate.
+    destruct (mapM _ (zip_trunc r l)) as [t' | | |] eqn:Hr; cbn in Hm; try discriminate.
+    inversion Hm; subst ws; cbn.
+    destruct (H t x y Hp Hx) as [x' [Hg Hf]].
+    destruct (IH l t' HP Hr) as [l' [Hgl Hfl]].
+    exists (x' :: l'); cbn. rewrite Hg; cbn. rewrite Hgl; cbn. rewrite Hf; cbn. rewrite Hfl; cbn. split; reflexivity.
+Qed.
+
+Lemma existsb_map_fst {A B} (p : A -> bool) (l : list (A * B)) :
+  existsb (fun kv => p (fst kv)) l = existsb p (map fst l).
+Proof. induction l as [| [a b] l IH]; cbn; auto. rewrite IH; reflexivity. Qed.
+
+Lemma td_fields_of_tokv : forall fs, td_fields (map tokv fs) = Some fs.
+Proof. induction fs as [| [f v] fs IH]; cbn; auto. rewrite IH; reflexivity. Qed.
+
+Lemma combine_fst_snd {A B} (l : list (A * B)) : combine (map fst l) (map snd l) = l.
+Proof. induction l as [| [a b] l IH]; cbn; auto. rewrite IH; reflexivity. Qed.
+
+Lemma list_eqb_nat_refl : forall a, list_eqb Nat.eqb a a = true.
+Proof. induction a; cbn; auto. rewrite Nat.eqb_refl; auto. Qed.
+
+Lemma class_rebuild c cd v fs fs' :
+  class_fields c cd v = Some fs -> map fst fs' = map fst fs -> NoDup (map fst fs) ->
+  exists v', construct_class c cd fs' = Ok v' /\ class_fields c cd v' = Some fs'.
+Proof.
+  intros H Hn Hd. unfold class_fields in H. unfold construct_class, class_fields.
+  destruct (cflavour cd); destruct v as [a | f | k l | k l | c' l | c' l]; try discriminate.
+  - destruct (Nat.eqb c c' && _) eqn:Hc; inversion H; subst.
+    apply andb_prop in Hc; destruct Hc as [Hc Hl]. apply list_eqb_nat_eq in Hl.
+    assert (Hl' : map fst fs' = map fname (cfields cd)) by congruence.
+    assert (Hd' : NoDup (map fst ([] ++ fs'))) by (cbn; rewrite Hn; exact Hd).
+    pose proof (fill_fields_exact (cfields cd) [] fs' Hl' Hd') as Hf; cbn [app] in Hf; rewrite Hf. cbn.
+    exists (PObj c fs'); split; [reflexivity |]. cbn. rewrite Nat.eqb_refl, Hl', list_eqb_nat_refl. reflexivity.
+  - destruct (Nat.eqb c c' && Nat.eqb _ _) eqn:Hc; inversion H; subst.
+    apply andb_prop in Hc; destruct Hc as [Hc Hl]. apply Nat.eqb_eq in Hl.
+    assert (Hlen : length (map fname (cfields cd)) = length l) by (rewrite map_length; auto).
+    rewrite (map_fst_combine _ _ Hlen) in Hn, Hd.
+    assert (Hd' : NoDup (map fst ([] ++ fs'))) by (cbn; rewrite Hn; exact Hd).
+    pose proof (fill_fields_exact (cfields cd) [] fs' Hn Hd') as Hf; cbn [app] in Hf; rewrite Hf. cbn.
+    exists (PNamed c (map snd fs')); split; [reflexivity |]. cbn. rewrite Nat.eqb_refl. rewrite map_length.
+    assert (Hl2 : length fs' = length (cfields cd)).
+    { rewrite <- (map_length fst fs'), Hn, map_length; reflexivity. }
+    rewrite Hl2, Nat.eqb_refl. cbn. rewrite <- Hn, combine_fst_snd. reflexivity.
+  - destruct k; try discriminate. exists (PDict KDict (map tokv fs')); split; [reflexivity |]. cbn. apply td_fields_of_tokv.
+  - destruct (Nat.eqb c c' && _) eqn:Hc; inversion H; subst.
+    apply andb_prop in Hc; destruct Hc as [Hc Hl]. apply list_eqb_nat_eq in Hl.
+    assert (Hl' : map fst fs' = map fname (cfields cd)) by congruence.
+    assert (Hd' : NoDup (map fst ([] ++ fs'))) by (cbn; rewrite Hn; exact Hd).
+    pose proof (fill_fields_exact (cfields cd) [] fs' Hl' Hd') as Hf; cbn [app] in Hf; rewrite Hf. cbn.
+    exists (PObj c fs'); split; [reflexivity |]. cbn. rewrite Nat.eqb_refl, Hl', list_eqb_nat_refl. reflexivity.
+Qed.
+
+Section Fix.
+Variable rt : runtime.
+Variable lv : nat -> pv -> bool.
+Variable E : env.
+Hypothesis L : RoundLaws rt lv.
+
+Definition FX (n : nat) : Prop :=
+  forall t v m, fix_ok rt lv E n t v = true -> mar rt E n t v = Ok m ->
+  exists v', unm rt E n t m = Ok v' /\ mar rt E n t v' = Ok m.
+
+Lemma FR_fix n cd : FX n -> forall fs b,
+  FR (mar rt E n) cd fs b ->
+  (forall x ft, In x fs -> field_ty cd (fst x) = Some ft -> fix_ok rt lv E n ft (snd x) = true) ->
+  exists fs', FR (unm rt E n) cd b fs' /\ FR (mar rt E n) cd fs' b.
+Proof.
+  intros IH fs b HF; induction HF as [| x y fs b [Hn [ft [Hft Hh]]] _ IHF]; intros Hok.
+  - exists []; split; constructor.
+  - destruct (IH ft (snd x) (snd y) (Hok x ft (or_introl eq_refl) Hft) Hh) as [x' [Hu Hm]].
+    destruct IHF as [fs' [H1 H2]]; [intros x0 ft0 Hin; apply Hok; right; exact Hin |].
+    exists ((fst x, x') :: fs'). split; constructor; auto; cbn.
+    + split; [symmetry; exact Hn |]. exists ft. rewrite Hn. split; auto.
+    + split; [exact Hn |]. exists ft. split; auto.
+Qed.
+
+Lemma fix_named n c : FX n -> forall v m,
+  fix_ok rt lv E (S n) (TName c) v = true -> mar rt E (S n) (TName c) v = Ok m ->
+  exists v', unm rt E (S n) (TName c) m = Ok v' /\ mar rt E (S n) (TName c) v' = Ok m.
+Proof.
+  intros IH v m Hv Hm. cbn [fix_ok] in Hv; cbn [mar] in Hm; cbn [unm mar].
+  destruct (E c) as [[cd | t'] |] eqn:HE; try discriminate.
+  - destruct (class_fields c cd v) as [fs |] eqn:Hcf; try discriminate.
+    apply andb_prop in Hv; destruct Hv as [Hnd Hv]. apply nodup_nat_NoDup in Hnd.
+    rewrite (class_iteritems rt E c cd v fs HE Hcf) in Hm. cbn [bind] in Hm.
+    destruct (fold_left _ (map tokv fs) (Ok [])) as [kw | | |] eqn:Hf in Hm; cbn [bind] in Hm; try discriminate.
+    inversion Hm; subst m; clear Hm.
+    change (fold_left (fstep rt (mar rt E n) cd) (map tokv fs) (Ok []) = Ok kw) in Hf.
+    apply fold_fields_inv in Hf.
+    + destruct Hf as [b [Hb Hkw]]. cbn [app] in Hkw. subst kw.
+      destruct (FR_fix n cd IH fs b Hb) as [fs' [Hu Hm']].
+      { intros x ft Hin Hft. rewrite forallb_forall in Hv. specialize (Hv x Hin). rewrite Hft in Hv. exact Hv. }
+      assert (Hnames : map fst fs' = map fst fs).
+      { rewrite (FR_names _ _ _ _ Hu). apply (FR_names _ _ _ _ Hb). }
+      destruct (class_rebuild c cd v fs fs' Hcf Hnames Hnd) as [v' [Hc1 Hc2]].
+      exists v'. split.
+      * cbn [load is_scalar bind iteritems].
+        change (bind (fold_left (fstep rt (unm rt E n) cd) (map tokv b) (Ok [])) (fun kw => construct_class c cd kw) = Ok v').
+        rewrite (fold_fields_fwd rt (unm rt E n) cd b fs' []); [cbn [app bind]; exact Hc1 | exact Hu |].
+        cbn [map app]. rewrite (FR_names _ _ _ _ Hb). exact Hnd.
+      * rewrite (class_iteritems rt E c cd v' fs' HE Hc2). cbn [bind].
+        change (bind (fold_left (fstep rt (mar rt E n) cd) (map tokv fs') (Ok [])) (fun kw => Ok (PDict KDict (map tokv kw))) = Ok (PDict KDict (map tokv b))).
+        rewrite (fold_fields_fwd rt (mar rt E n) cd fs' b []); [reflexivity | exact Hm' |].
+        cbn [map app]. rewrite Hnames. exact Hnd.
+    + apply Forall_forall. intros x Hin. rewrite forallb_forall in Hv. specialize (Hv x Hin).
+      destruct (field_ty cd (fst x)); [discriminate | discriminate].
+    + cbn [map app]. exact Hnd.
+  - exact (IH t' v m Hv Hm).
+Qed.
+
+Theorem fix_core : forall n, FX n.
+Proof.
+  induction n as [| n IH]; intros t v m Hv Hm; [cbn in Hv; discriminate |].
+  destruct t as [s| |k a|k kt vt|ts|ts|c|c|s|t'|i t'|i t'|i c|t'|t'].
+  - cbn [fix_ok] in Hv. cbn [mar] in Hm. cbn [unm mar]. exists v. split; [eapply leaf_round; eauto | exact Hm].
+  - cbn [fix_ok] in Hv. cbn [mar] in Hm. cbn [unm mar]. rewrite Hv in Hm. inversion Hm; subst m. exists v.
+    split; [apply (none_round _ _ L); exact Hv | rewrite Hv; reflexivity].
+  - (* subscripted iterable *)
+    cbn [fix_ok] in Hv. destruct v as [a0 | f0 | k0 l | k0 l | c0 l | c0 l]; try discriminate.
+    apply andb_prop in Hv; destruct Hv as [Hv Hset]. apply andb_prop in Hv; destruct Hv as [Hk Hv].
+    apply seqkind_eqb_eq in Hk; subst k0.
+    cbn [mar itervalues bind] in Hm.
+    destruct (mapM (mar rt E n a) l) as [ws | | |] eqn:Hws; cbn [bind] in Hm; try discriminate.
+    inversion Hm; subst m; clear Hm.
+    destruct (mapM_fix (mar rt E n a) (unm rt E n a) l ws) as [l' [Hu Hm']]; [| exact Hws |].
+    { intros x w Hin Hx. rewrite forallb_forall in Hv. exact (IH a x w (Hv x Hin) Hx). }
+    exists (PSeq k l'). split.
+    + cbn [unm load is_scalar bind itervalues]. rewrite Hu. cbn [bind]. unfold construct_seq.
+      destruct k; try reflexivity; rewrite Hu in Hset;
+        (apply andb_prop in Hset; destruct Hset as [Hh Hd]; apply negb_true_iff in Hh; rewrite Hh;
+         rewrite dedupe_nodup by exact Hd; reflexivity).
+    + cbn [mar itervalues bind]. rewrite Hm'. reflexivity.
+  - (* subscripted mapping *)
+    cbn [fix_ok] in Hv. destruct v as [a0 | f0 | k0 l | k0 l | c0 l | c0 l]; try discriminate.
+    apply andb_prop in Hv; destruct Hv as [Hv Hkeys]. apply andb_prop in Hv; destruct Hv as [Hk Hv].
+    apply dictkind_eqb_eq in Hk; subst k0.
+    cbn [mar iteritems bind] in Hm.
+    destruct (mapM _ l) as [rs | | |] eqn:Hrs in Hm; cbn [bind] in Hm; try discriminate.
+    unfold construct_map in Hm.
+    destruct (existsb (fun kv => unhashable rt (fst kv)) rs) eqn:Hhw; try discriminate.
+    inversion Hm; subst m; clear Hm.
+    rewrite (mapM_pair_fst _ _ _ _ Hrs) in Hkeys.
+    apply andb_prop in Hkeys; destruct Hkeys as [Hndw Hkeys].
+    rewrite (dict_of_nodup rt rs Hndw).
+    destruct (mapM_fix (fun kv => bind (mar rt E n kt (fst kv)) (fun k' =>
+                               bind (mar rt E n vt (snd kv)) (fun v' => Ok (k', v'))))
+                       (fun kv => bind (unm rt E n kt (fst kv)) (fun k' =>
+                               bind (unm rt E n vt (snd kv)) (fun v' => Ok (k', v')))) l rs) as [l' [Hu Hm']];
+      [| exact Hrs |].
+    { intros [xk xv] [wk wv] Hin Hx. cbn [fst snd] in *.
+      rewrite forallb_forall in Hv. specialize (Hv _ Hin). cbn [fst snd] in Hv.
+      apply andb_prop in Hv; destruct Hv as [Hv1 Hv2].
+      destruct (mar rt E n kt xk) as [wk' | | |] eqn:H1; cbn [bind] in Hx; try discriminate.
+      destruct (mar rt E n vt xv) as [wv' | | |] eqn:H2; cbn [bind] in Hx; try discriminate.
+      inversion Hx; subst wk' wv'.
+      destruct (IH kt xk wk Hv1 H1) as [xk' [Hu1 Hm1]]. destruct (IH vt xv wv Hv2 H2) as [xv' [Hu2 Hm2]].
+      exists (xk', xv'). cbn [fst snd]. rewrite Hu1, Hm1; cbn [bind]. rewrite Hu2, Hm2; cbn [bind]. split; reflexivity. }
+    rewrite (mapM_pair_fst _ _ _ _ Hu) in Hkeys.
+    apply andb_prop in Hkeys; destruct Hkeys as [Hh Hnd]. apply negb_true_iff in Hh.
+    exists (PDict k l'). split.
+    + cbn [unm load is_scalar bind iteritems]. rewrite Hu. cbn [bind]. unfold construct_map.
+      rewrite existsb_map_fst, Hh. rewrite (dict_of_nodup rt l' Hnd). reflexivity.
+    + cbn [mar iteritems bind]. rewrite Hm'. cbn [bind]. unfold construct_map. rewrite Hhw.
+      rewrite (dict_of_nodup rt rs Hndw). reflexivity.
+  - (* fixed tuple *)
+    cbn [fix_ok] in Hv. destruct v as [a0 | f0 | k0 l | k0 l | c0 l | c0 l]; try discriminate.
+    destruct k0; try discriminate.
+    cbn [mar itervalues bind] in Hm.
+    destruct (mapM _ (zip_trunc ts l)) as [ws | | |] eqn:Hws in Hm; cbn [bind] in Hm; try discriminate.
+    inversion Hm; subst m; clear Hm.
+    destruct (mapM_zip_fix (mar rt E n) (unm rt E n) (fix_ok rt lv E n) IH ts l ws Hv Hws) as [l' [Hu Hm']].
+    exists (PSeq KTuple l'). split.
+    + cbn [unm load is_scalar bind itervalues]. rewrite Hu. reflexivity.
+    + cbn [mar itervalues bind]. rewrite Hm'. reflexivity.
+  - (* union: the local fixpoint is checked by evaluation *)
+    cbn [fix_ok] in Hv. rewrite Hm in Hv.
+    destruct (unm rt E (S n) (TUnion ts) m) as [v' | | |] eqn:Hu; try discriminate.
+    destruct (mar rt E (S n) (TUnion ts) v') as [m' | | |] eqn:Hm'; try discriminate.
+    apply pv_eqb_eq in Hv. subst m'. exists v'. split; [reflexivity | exact Hm'].
+  - exact (fix_named n c IH v m Hv Hm).
+  - exact (fix_named n c IH v m Hv Hm).
+  - cbn [fix_ok] in Hv. cbn [mar] in Hm. cbn [unm mar]. exists v. split; [eapply leaf_round; eauto | exact Hm].
+  - exact (IH t' v m Hv Hm).
+  - exact (IH t' v m Hv Hm).
+  - exact (IH t' v m Hv Hm).
+  - exact (fix_named n c IH v m Hv Hm).
+  - exact (IH t' v m Hv Hm).
+  - exact (IH t' v m Hv Hm).
+Qed.
+
+End Fix.
+
+Theorem fixpoint_fuel rt lv E : RoundLaws rt lv ->
+  forall n fuel T v m, fuel <= n -> fix_ok rt lv E n T v = true -> mar rt E fuel T v = Ok m ->
+  exists v', (forall f, f >= n -> unm rt E f T m = Ok v') /\ (forall f, f >= n -> mar rt E f T v' = Ok m).
+Proof.
+  intros L n fuel T v m Hle Hv Hm.
+  assert (Hm' : mar rt E n T v = Ok m) by (eapply le_res_ok; [apply mar_ge; exact Hle | exact Hm]).
+  destruct (fix_core rt lv E L n T v m Hv Hm') as [v' [Hu Hm2]].
+  exists v'. split; intros f Hf.
+  - eapply le_res_ok; [apply unm_ge; exact Hf | exact Hu].
+  - eapply le_res_ok; [apply mar_ge; exact Hf | exact Hm2].
+Qed.
+
+(* Union[date, str] and the str "2020-01-01T00:00:00": the date member accepts the str member's wire form,
+   and writes the date it read as "2020-01-01": the weak fixpoint fails. *)
+Lemma refute_fixpoint_noncanonical :
+  exists rt lv E n T v m v' m', RoundLaws rt lv /\
+    valid rt lv E n T v = true /\ stmt_unamb rt lv E n T v = false /\ fix_ok rt lv E n T v = false /\
+    mar rt E n T v = Ok m /\ unm rt E n T m = Ok v' /\ mar rt E n T v' = Ok m' /\ m' <> m.
+Proof.
+  exists toy_rt, toy_lv, toy_env, 3, (TUnion [TLeaf 3; TLeaf 2]), (PAtom 7), (PAtom 7), (PAtom 6), (PAtom 8).
+  split; [exact toy_laws |]. repeat split; try (vm_compute; reflexivity). discriminate.
+Qed.
+
+Lemma toy_fixpoint_instance :
+  union_unamb toy_rt toy_lv toy_env 3 (TUnion [TLeaf 1; TLeaf 2]) (PAtom 2) = false /\
+  fix_ok toy_rt toy_lv toy_env 4 (TSeq KList (TUnion [TLeaf 1; TLeaf 2])) (PSeq KList [PAtom 2; PAtom 4]) = true /\
+  mar toy_rt toy_env 4 (TSeq KList (TUnion [TLeaf 1; TLeaf 2])) (PSeq KList [PAtom 2; PAtom 4]) = Ok (PSeq KList [PAtom 1; PAtom 4]) /\
+  unm toy_rt toy_env 4 (TSeq KList (TUnion [TLeaf 1; TLeaf 2])) (PSeq KList [PAtom 1; PAtom 4]) = Ok (PSeq KList [PAtom 1; PAtom 4]).
+Proof. repeat split; vm_compute; reflexivity. Qed.
+
+(* ------------------------------------------------------------------ scalar mapping keys satisfy c01_guard *)
+Section Keys.
+Variable rt : runtime.
+Variable lv : nat -> pv -> bool.
+Variable E : env.
+Hypothesis Inj : leaf_m_inj rt lv.
+
+Lemma key_leaf_spec : forall n kt s, key_leaf E n kt = Some s ->
+  forall x, mar rt E n kt x = leaf_m rt s x /\ valid rt lv E n kt x = lv s x.
+Proof.
+  induction n as [| n IH]; intros kt s H x; [discriminate |].
+  destruct kt as [s0| |k a|k kt' vt|ts|ts|c|c|s0|t'|i t'|i t'|i c|t'|t']; cbn [key_leaf] in H; try discriminate;
+    cbn [mar valid];
+    try (inversion H; subst; split; reflexivity);
+    try (apply IH; exact H);
+    (destruct (E c) as [[cd | t''] |]; try discriminate; apply IH; exact H).
+Qed.
+
+Definition KR (s : nat) (v w : pv) : Prop := lv s v = true /\ leaf_m rt s v = Ok w.
+
+Lemma mem_transfer s v w : KR s v w -> forall seen seenw, Forall2 (KR s) seen seenw ->
+  mem_pv rt w seenw = true -> mem_pv rt v seen = true.
+Proof.
+  intros [Hv Hw]; induction 1 as [| v0 w0 seen seenw [Hv0 Hw0] _ IH]; cbn; intros H; [discriminate |].
+  apply orb_prop in H; destruct H as [H | H].
+  - rewrite (Inj s v v0 w w0 Hv Hv0 Hw Hw0 H). reflexivity.
+  - rewrite (IH H). apply orb_true_r.
+Qed.
+
+Lemma nodup_transfer s : forall keys ws, Forall2 (KR s) keys ws ->
+  forall seen seenw, Forall2 (KR s) seen seenw ->
+  nodup_from rt seen keys = true -> nodup_from rt seenw ws = true.
+Proof.
+  induction 1 as [| v w keys ws Hvw _ IH]; cbn; intros seen seenw Hs H; auto.
+  apply andb_prop in H; destruct H as [H1 H2]. apply negb_true_iff in H1.
+  rewrite (IH (v :: seen) (w :: seenw) (Forall2_cons _ _ Hvw Hs) H2), andb_true_r.
+  apply negb_true_iff. destruct (mem_pv rt w seenw) eqn:Hm; auto.
+  rewrite (mem_transfer s v w Hvw seen seenw Hs Hm) in H1. discriminate.
+Qed.
+
+Lemma keys_of_leaf_law n kt s keys ws :
+  key_leaf E n kt = Some s -> forallb (valid rt lv E n kt) keys = true ->
+  nodup_from rt [] keys = true -> mapM (mar rt E n kt) keys = Ok ws -> nodup_from rt [] ws = true.
+Proof.
+  intros Hk Hv Hn Hm.
+  apply (nodup_transfer s keys ws) with (seen := []); [| constructor | exact Hn].
+  clear Hn. revert ws Hm. induction keys as [| x keys IH]; cbn; intros ws Hm.
+  - inversion Hm; constructor.
+  - cbn in Hv. apply andb_prop in Hv; destruct Hv as [Hx Hv].
+    destruct (key_leaf_spec n kt s Hk x) as [Hmx Hvx].
+    destruct (mar rt E n kt x) as [w | | |] eqn:Hw; cbn in Hm; try discriminate.
+    destruct (mapM (mar rt E n kt) keys) as [t | | |] eqn:Ht; cbn in Hm; try discriminate.
+    inversion Hm; subst ws. constructor; [| apply IH; auto].
+    split; [rewrite <- Hvx; exact Hx | rewrite <- Hmx; reflexivity].
+Qed.
+
+End Keys.
